@@ -20,7 +20,7 @@ def key_pool(ctx, binary, sizes, primes):
     """Prime pool for the key classes: generated once per (seed, sizes, primes) and cached in
     /var/tmp/verif-cache (an optimisation only: regenerated when missing, every prime and every
     constructed key is re-validated by the harness when it is loaded)."""
-    name = "c23-keys-s%d-%s-%s.json" % (ctx.seed, "_".join(map(str, sizes)), "_".join(map(str, primes)))
+    name = "c23-keys-v2-s%d-%s-%s.json" % (ctx.seed, "_".join(map(str, sizes)), "_".join(map(str, primes)))
     local = ctx.path("keys.json")
     cached = os.path.join(CACHE, name)
     if os.path.exists(cached):
@@ -61,10 +61,12 @@ def generate(ctx, sizes, primes, exps, hashes, cover, out):
 def run(ctx):
     quick = ctx.quick
     binary = ctx.gobuild("c23")
+    # sizes: byte-aligned ones and boundary classes (modulus length 1, 3, 6 mod 8: the PSS encoding is one
+    # octet shorter than the modulus / the leading octet is partial)
     if quick:
-        sizes, primes = [512, 1024, 2048], [2, 3, 5]
+        sizes, primes = [512, 513, 1024, 1025, 1030, 2048], [2, 3, 5]
     else:
-        sizes, primes = [512, 1024, 2048, 3072, 4096], [2, 3, 4, 5]
+        sizes, primes = [512, 513, 1024, 1025, 1027, 1030, 2048, 2049, 3072, 4096], [2, 3, 4, 5]
     keys = key_pool(ctx, binary, sizes, primes)
 
     # U2: TLC enumerates the abstract runs with the outcome sets of the ideal functionality.
@@ -74,10 +76,10 @@ def run(ctx):
         runs = generate(ctx, sizes, primes, ["e65537", "r31", "rbig"], ["sha1", "sha256"], "oa", runs_file)
     else:
         allexp = ["e3", "e65537", "r31", "r40", "rbig"]
-        runs = generate(ctx, [512, 1024, 2048], primes, allexp, ["sha1", "sha256", "sha512"], "full", runs_file)
-        runs += generate(ctx, [3072, 4096], primes, allexp, ["sha256", "sha512"], "oa", runs_file)
+        runs = generate(ctx, [512, 513, 1024, 1025, 2048], primes, allexp, ["sha1", "sha256", "sha512"], "full", runs_file)
+        runs += generate(ctx, [1027, 1030, 2049, 3072, 4096], primes, allexp, ["sha256", "sha512"], "oa", runs_file)
     ops = set(s["op"] for r in runs for s in r["steps"])
-    need = {"EncPKCS1", "EncOAEP", "SignPKCS1", "SignPSS", "ForgeEnc", "ForgeSig", "Mutate", "DecPKCS1", "DecSessionKey", "DecOAEP", "VerPKCS1", "VerPSS"}
+    need = {"EncPKCS1", "EncOAEP", "SignPKCS1", "SignPSS", "ForgeEnc", "ForgeSig", "ForgePSS", "ForgeOAEP", "Mutate", "DecPKCS1", "DecSessionKey", "DecOAEP", "VerPKCS1", "VerPSS"}
     if not need <= ops or not any(s["bad"] for r in runs for s in r["steps"]):
         raise Machinery("vacuous generation: operations %s never occur" % sorted(need - ops))
     if not any(s["impl"] == "S" for r in runs for s in r["steps"]):
